@@ -309,7 +309,13 @@ def two_level(ctx, kit, rng):
             if nsites(sm, e1) != 2 or nsites(sm, e2):
                 continue
             try:
-                p = assemble(V1(rec(sv, "cv%d" % j)), [M1(rec(sm, "entry%d" % j))])   # default id/name: "assembly"
+                # the entry is an annotated GenBank-like record: a feature inside the insert cites one of its references
+                ti = sm.index(t, len(s1) + n1)
+                espec = {"id": "entry%d" % j, "seq": sm,
+                         "refs": [{"title": "Paper %d" % x, "authors": "A", "journal": "J %d" % x} for x in range(2)],
+                         "features": [{"type": "CDS", "parts": [[ti, ti + len(t), 1]], "quals": {"uid": ["entry%d.cds" % j], "citation": ["[2]"]}}]}
+                erec = gen.make_record(espec) if j % 2 == 0 or kit == "ecoflex" else rec(sm, "entry%d" % j)
+                p = assemble(V1(rec(sv, "cv%d" % j)), [M1(erec)])   # default id/name: "assembly"
             except Exception as e:
                 ctx.violation("level-assembly-raises:%s:%s" % (name, type(e).__name__), "%s: %s" % (name, str(e)[:160]), vector=sv, modules=[sm])
                 return
